@@ -463,6 +463,8 @@ def fmt_steps(steps):
 def run_histories(ctx):
     quick = ctx.tier == "quick"
     tgs = G.targets("asan")
+    if not tgs:
+        return 0
     bins = build_or_fail([t for t, _ in tgs])
     nrand = 150 if quick else 6000
     stats = dict(ops={}, resize_refused=0, resize_accepted=0, resize_unsupported_form=0, refused_classes=set(), states=set(),
@@ -574,6 +576,11 @@ def run_histories(ctx):
 
 
 def run(ctx):
+    import os
+    only = os.environ.get("VERIF_C20_CONFIGS", "")
+    if only:
+        print("C20: RESTRICTED run (VERIF_C20_CONFIGS=%s): developer aid, not the claimed check" % only)
+        ctx.set("restricted_to", only)
     nrand = run_histories(ctx)
     V.run_views(ctx)
     ctx.rule = ("histories: per configuration a deterministic core (start shapes x every probe shape (all dim 1..3 extents 1..3 + over-capacity / "
